@@ -106,9 +106,14 @@ def run(chk):
         for _ in range(chk.n(1200, 24000)):
             found = []
             if HAS_PARA[tname] and rng.random() < 0.7:
-                keys = rng.sample([b"X-Unknown", b"Zeta", b"Another-Field", b"X-B"], rng.randrange(0, 4))
+                # unknown fields, some named like the fields of the nested custom types (version.Version has Epoch,
+                # Version, Revision; dependency.Arch has ABI, OS, CPU; Dependency has Relations): they are unknown to
+                # the struct all the same and must pass through without touching any typed field
+                pool = [b"X-Unknown", b"Zeta", b"Another-Field", b"X-B", b"Epoch", b"Revision", b"Native", b"Relations", b"ABI", b"OS", b"CPU",
+                        b"Possibilities", b"Algorithm", b"Hash", b"Filename"]
+                keys = rng.sample(pool, rng.randrange(0, 4))
                 for k in keys:
-                    found.append((k, rng.choice([b"v1", b"some value", b"1.0"])))
+                    found.append((k, rng.choice([b"v1", b"some value", b"1.0", b"3", b"yes"])))
                 if rng.random() < 0.5:
                     # stale values of known fields sit in the embedded paragraph too
                     f = rng.choice(fields)
